@@ -210,10 +210,14 @@ def method_config(draw, p, methods=PLAIN_METHODS, n_noise=0):
     if method in ('mahalanobis', 'crossnobis'):
         forms = ['none', 'single', 'single'] + (['list', 'list'] if n_noise else [])
         nf = draw(st.sampled_from(forms))
+        # 'all symmetric positive-definite precisions' includes precisions of data recorded in
+        # large or small units: an exact power-of-two factor (tiny entries everywhere, yet as
+        # far from diagonal as before)
+        f = 2.0 ** draw(st.sampled_from([0, 0, 0, -40, -30, 24]))
         if nf == 'single':
-            cfg['noise'] = draw(gen.spd(p))
+            cfg['noise'] = (np.array(draw(gen.spd(p))) * f).tolist()
         elif nf == 'list':
-            cfg['noise'] = [draw(gen.spd(p)) for _ in range(n_noise)]
+            cfg['noise'] = [(np.array(draw(gen.spd(p))) * f).tolist() for _ in range(n_noise)]
         cfg['noise_form'] = nf
     if method in ('poisson', 'poisson_cv'):
         cfg['prior'] = list(draw(st.sampled_from(PRIORS)))
